@@ -39,6 +39,21 @@ Theorem C18_index_rejected : forall s x, try_to_usize_exact x = None ->
   index_value (VStr s) (VNum x) = Err ENumericIndexIsNotValid.
 Proof. exact index_rejected. Qed.
 
+(* concretely, for indices / lengths below 2^16 written as numbers (exhaustive check of the
+   double conversions): s[i] is the i-th code point, substr drops a and keeps l code points *)
+Theorem C18_index_small_is_nth : forall s i, (i < 0x10000)%N ->
+  index_value (VStr s) (VNum (f_of_N i)) =
+    match nth_error s (N.to_nat i) with
+    | Some c => Ok (VStr [c])
+    | None => Err ENumericIndexOutOfRange
+    end.
+Proof. exact index_small_is_nth. Qed.
+
+Theorem C18_substr_small : forall s a l, (a < 0x10000)%N -> (l < 0x10000)%N ->
+  std_substr (VStr s) (VNum (f_of_N a)) (VNum (f_of_N l)) =
+    Ok (VStr (firstn (N.to_nat l) (skipn (N.to_nat a) s))).
+Proof. exact substr_small. Qed.
+
 Theorem C18_substr_slice_agree : forall s a l e v,
   not_integer e = false -> f_neg_p e = false ->
   sat_cast usize_max e = (sat_cast usize_max a + sat_cast usize_max l)%N ->
@@ -229,6 +244,8 @@ Print Assumptions C18_utf8_len_ge_length.
 Print Assumptions C18_utf8_len_eq_length_iff_ascii.
 Print Assumptions C18_index_is_nth.
 Print Assumptions C18_index_rejected.
+Print Assumptions C18_index_small_is_nth.
+Print Assumptions C18_substr_small.
 Print Assumptions C18_substr_slice_agree.
 Print Assumptions C18_slice_is_skip_take_step.
 Print Assumptions C18_slice_no_panic.
